@@ -2,7 +2,7 @@
 # run_seed_wt.sh <seed_dir> <PROP> [tier] [worktree] : like run_seed.sh but against a scratch worktree (VERIF_REPO),
 # so that /repo stays untouched while developing.  Evidence/replays written by such runs are scratch.
 sd=$1; prop=$2; tier=${3:-quick}; wt=${4:-/tmp/wt/run}
-cd /verif
+cd ${VERIF_DIR:-/verif}
 git -C $wt checkout -q --detach $(git -C /repo rev-parse HEAD) && git -C $wt checkout -- . 
 git -C $wt apply "$sd/patch.diff" || { echo "SEED $(basename $sd) patch does not apply"; exit 9; }
 out=$(VERIF_REPO=$wt ./check $prop --tier $tier 2>&1); ec=$?
